@@ -943,6 +943,34 @@ def cache(ctx, prog):
             ctx.violation(rule, body.id, "cache extended for one topic only",
                           "the new filter index is not pushed inside the loop over all cached topics (publish_filters): only some already-cached topics learn about the new subscription", site=body.loc(t.get("sp")))
             continue
+        # the match decides alone: between the iterator's next() and the push, every branch that can skip the push
+        # is a branch on the result of protocol::matches (or the iterator's own Some/None). A cheaper pre-test
+        # (prefix / length / wildcard shortcut) disagrees with matches() somewhere - `sport/#` matches `sport`.
+        foreign = []
+        for p_ in pushes:
+            for n_ in nexts:
+                if not (n_ in reachable_after(body, [p_]) and p_ in reachable_after(body, [n_])):
+                    continue
+                region = reachable_after(body, [n_], avoid_blocks=[p_, n_])
+                for b_ in sorted(region):
+                    blk = body.blocks[b_]
+                    if blk.get("cleanup") or blk["t"]["k"] != "switch":
+                        continue
+                    if any(b_ in live_succ(body, nn) for nn in nexts):
+                        continue  # the iterator's own Some/None switch
+                    succs = live_succ(body, b_)
+                    can = [s_ for s_ in succs if s_ == p_ or p_ in reachable(body, [s_], avoid_blocks=[n_])]
+                    if not can or len(can) == len(succs):
+                        continue  # does not decide whether the push is reached
+                    srcs = provenance(body, blk["t"]["on"])
+                    if srcs and all(s_.kind == "call" and s_.path.endswith("protocol::matches") for s_ in srcs):
+                        continue
+                    foreign.append(b_)
+        if foreign:
+            ctx.violation(rule, body.id, "cache extension decided by more than the match",
+                          "in the loop over the cached topics a branch that is not on protocol::matches()'s result can skip the push of the new filter's index: wherever that pre-test and matches() disagree a cached topic never learns about the new subscription",
+                          site=body.loc(body.blocks[foreign[0]]["t"].get("sp")))
+            continue
         if its and ms and must_pass(body, [bb], rets, via_blocks=its):
             ctx.ok(rule, body.id, "new filter is matched against every cached topic (publish_filters.iter_mut + matches)", site=body.loc(t.get("sp")))
         else:
